@@ -359,6 +359,15 @@ def check_core_resolve(rep, core):
     rep.expect('R02.f', not asserts, 'Core::resolve|no-panic', 'no panic!/assert! in Core::resolve',
                'Core::resolve can panic (%s)' % [d for _, _, d in asserts])
     prop_ok = any(s[0] == 'callarg' and call_matches(s[2], ['core::ops::try_trait::Try::branch']) for s in flows_to(f, t['d']['l'], whole_only=True))
+    if not prop_ok:
+        # the same by an explicit match: the Err the function returns is the Err of Request::resolve, and with that result being Err no
+        # Ok is built for the return (finite-domain evaluation over the two variants of the result)
+        errs = origins(f, {'l': 0, 'p': ['as Err', '.0']})
+        same_err = bool(errs) and all(o.kind == 'call' and o.bb == bb and o.suffix == ['as Err', '.0'] for o in errs)
+        oks = [b2 for b2, i2, s2 in f.stmts('assign') if s2['rv']['k'] == 'agg' and s2['rv'].get('adt') == 'core::result::Result' and s2['rv'].get('variant') == 'Ok'
+               and s2['d']['l'] == 0 and not s2['d']['p']]
+        reach = f.reachable_ps([bb], call_values=lambda b_, t_: ('V', 'core::result::Result', 1) if b_ == bb else None)
+        prop_ok = same_err and not (set(oks) & reach) and bool(set(f.return_blocks()) & reach)
     rep.expect('R02.f', prop_ok, 'Core::resolve|propagates', 'the ResolveError is returned through `?`',
                'Core::resolve no longer returns the ResolveError of a rejected resolution')
 
